@@ -742,6 +742,11 @@ impl Run {
         self.violations.push((Violation { check: check.to_string(), case: Value::Null, detail: detail.to_string() }, PathBuf::from("(child)")));
     }
 
+    /// For checks that interpret a replay case themselves (compiled programs): the case was run.
+    pub fn mark_replay_ran(&mut self) {
+        self.replay_ran = true;
+    }
+
     pub fn violation_count(&self) -> usize {
         self.violations.len()
     }
